@@ -37,11 +37,12 @@ BUDGET_S = {"quick": 22, "thorough": 640}
 # floors sized for a heavily loaded shared machine (one OS file-lock call was measured at 0.2 s there, 16 worker start-ups at 30+ s)
 MIN_EVALS = {"quick": 30, "thorough": 800}
 FLOORS = {"quick": {"oracle_post_shelve": 25, "oracle_roundtrip": 20, "oracle_shelf_ids": 200, "oracle_lines_mix": 2,
-                    "oracle_roundtrip_older_target": 3, "oracle_shelf_ids_mixed_width": 8},
+                    "oracle_roundtrip_older_target": 3, "oracle_shelf_ids_mixed_width": 8, "oracle_fault_conservation": 3},
           "thorough": {"oracle_post_shelve": 700, "oracle_roundtrip": 500, "oracle_shelf_ids": 4000, "oracle_lines_mix": 50,
                        "oracle_ui_hunks": 30, "oracle_cmd_shelve": 30, "oracle_shelf_content": 30,
-                       "oracle_roundtrip_older_target": 100, "oracle_shelf_ids_mixed_width": 500}}
+                       "oracle_roundtrip_older_target": 100, "oracle_shelf_ids_mixed_width": 500, "oracle_fault_conservation": 100}}
 ASSUMPTIONS = [
+    "fault dimension (30% of the cases, private copy of the tree): ENOSPC at the k-th write (k mostly 0-3) of the shelf file inside ShelfManager.shelve_changes; only the conservation of the pending changes (tree or readable shelf) is judged, a truncated shelf file left behind is counted",
     "selections are subsets of what iter_shelvable() offers; an executable-bit change of a file present on both sides is never offered and is judged only through 'shelve everything leaves the basis'",
     "ids that were versioned-but-missing on disk before shelving are not judged (the statement does not say what restoring them means)",
     "selections whose result (basis + unselected) is not a well-formed tree may be refused; they are counted, not judged",
@@ -971,6 +972,167 @@ def unshelve(ctx, rng, p, sid, shelves, via, rd=None):
     return n, exc
 
 
+class InjectedWriteFault(OSError):
+    """ENOSPC raised by the harness while the shelf file is being written."""
+
+
+class _FaultFile:
+    """The file object of ShelfManager.new_shelf(): the k-th write() stores a prefix of its data, then raises."""
+
+    def __init__(self, real, k, state):
+        self._real, self._k, self._state = real, k, state
+
+    def write(self, data):
+        st = self._state
+        if st["writes"] == self._k:
+            st["fired"] = True
+            st["writes"] += 1
+            try:
+                self._real.write(data[:len(data) // 2])
+            except Exception:
+                pass
+            import errno
+
+            raise InjectedWriteFault(errno.ENOSPC, "No space left on device (injected by the harness)")
+        st["writes"] += 1
+        return self._real.write(data)
+
+    def close(self):
+        return self._real.close()
+
+    def __enter__(self):
+        return self
+
+    def __exit__(self, *a):
+        self.close()
+        return False
+
+    def __getattr__(self, name):
+        return getattr(self._real, name)
+
+
+def fault_round(ctx, rng, p, pre):
+    """Fault dimension: the shelf file runs out of space at its k-th write while ShelfManager.shelve_changes stores a selection.
+
+    Runs on a private copy of the tree directory and is judged through fresh objects.  Oracle (conservation): after the failed
+    shelve every pending change is still in the working tree (disk, versioning, iter_changes as before), or a readable shelf holds
+    what is missing and unshelving it gives the pre-shelve tree back.
+    """
+    import shutil
+
+    from breezy import shelf
+
+    pf = os.path.join(ctx.tmp("fault"), "t")
+    shutil.copytree(p, pf, symlinks=True)
+    k = rng.choice([0, 1, 1, 2, 2, 3, rng.randint(0, 12)])
+    state = {"writes": 0, "fired": False}
+    orig_new_shelf = shelf.ShelfManager.new_shelf
+
+    def new_shelf(self):
+        sid, fh = orig_new_shelf(self)
+        return sid, _FaultFile(fh, k, state)
+
+    whole = rng.random() < 0.5
+    exc = None
+    nsel = 0
+    shelf.ShelfManager.new_shelf = new_shelf
+    try:
+        wt = _open(pf)
+        with wt.lock_tree_write():
+            creator = shelf.ShelfCreator(wt, target_of(wt))
+            try:
+                for it in list(creator.iter_shelvable()):
+                    if whole or rng.random() < 0.6:
+                        creator.shelve_change(it)
+                        nsel += 1
+                if not nsel:
+                    ctx.hist("fault:nothing-selected")
+                    return
+                try:
+                    wt.get_shelf_manager().shelve_changes(creator, "faulted")
+                except (KeyboardInterrupt, SystemExit):
+                    raise
+                except BaseException as e:
+                    exc = e
+            finally:
+                try:
+                    creator.finalize()
+                except Exception:
+                    ctx.hist("fault:finalize-raised")
+        del wt
+    except InjectedWriteFault as e:  # fired outside shelve_changes (cannot happen today); treated alike
+        exc = e
+    except Exception as e:  # the selection itself is refused while it is being built (known classes): not this dimension
+        ctx.hist("fault:selection-raised:%s" % type(e).__name__)
+        return
+    finally:
+        shelf.ShelfManager.new_shelf = orig_new_shelf
+    ctx.hist("fault:write-position:%s" % (k if k < 4 else "4+"))
+    if not state["fired"]:
+        ctx.hist("fault:not-reached:%s" % ("shelved" if exc is None else type(exc).__name__))
+        return
+    ctx.count("fault_injected")
+    if not isinstance(exc, InjectedWriteFault):
+        # the fault fired but shelve_changes swallowed it or raised something else: still judged by conservation below
+        ctx.hist("fault:surfaced-as:%s" % (type(exc).__name__ if exc is not None else "nothing"))
+    # ---- judge with fresh objects
+    ctx.count("oracle_fault_conservation")
+
+    def same(a):
+        return (a.disk == pre.disk and {f: e.tup() for f, e in a.work.items()} == {f: e.tup() for f, e in pre.work.items()}
+                and a.changes == pre.changes)
+
+    try:
+        after = Snap(pf)
+    except Exception as e:
+        ctx.fail("shelve:fault-while-writing-shelf:tree-unreadable", "after ENOSPC at shelf write %d: %r" % (k, e))
+        return
+    mgr = _open(pf).get_shelf_manager()
+    new_ids = [i for i in mgr.active_shelves() if i not in pre_shelf_ids(p)]
+    if same(after):
+        ctx.hist("fault:outcome:tree-keeps-every-change")
+        if new_ids:
+            ctx.hist("fault:truncated-shelf-file-left-behind")  # not judged: the statement is about the changes, which are safe
+        return
+    # the tree lost changes: they must be recoverable from a readable shelf
+    recovered = False
+    why = []
+    for sid in reversed(new_ids):
+        try:
+            wt = _open(pf)
+            with wt.lock_tree_write():
+                un = wt.get_shelf_manager().get_unshelver(sid)
+                try:
+                    un.make_merger().do_merge()
+                finally:
+                    un.finalize()
+            del wt
+        except (KeyboardInterrupt, SystemExit):
+            raise
+        except BaseException as e:
+            why.append("shelf %d unreadable: %s" % (sid, type(e).__name__))
+            continue
+        try:
+            if same(Snap(pf)):
+                recovered = True
+                break
+            why.append("shelf %d applied but the tree differs from the pre-shelve tree" % sid)
+        except Exception as e:
+            why.append("tree unreadable after unshelving %d: %s" % (sid, type(e).__name__))
+    if recovered:
+        ctx.hist("fault:outcome:changes-recovered-from-shelf")
+        return
+    lost = [q for q, _e, _a in M.diff_disk(pre.disk, after.disk)][:6]
+    ctx.fail("shelve:fault-while-writing-shelf:changes-in-neither-tree-nor-readable-shelf",
+             "ENOSPC at write %d of the shelf file (%d items selected): working tree no longer has the pending changes (differs at %r) and %s" % (
+                 k, nsel, lost, "; ".join(why) or "no new shelf exists"), {"fault_write_index": k, "selected_items": nsel, "whole": whole})
+
+
+def pre_shelf_ids(p):
+    """Shelf ids of the original directory (the private copy starts with the same ones)."""
+    return set(_open(p).get_shelf_manager().active_shelves())
+
+
 def case_git(ctx):
     """Git working trees: shelving is refused (ShelvingUnsupported) - counted, and the refusal must leave the tree alone."""
     from breezy import builtins
@@ -1052,6 +1214,9 @@ def case(ctx):
         fill_to = rng.randint(100, 102) if ctx.tier != "quick" and rng.random() < 0.03 else rng.randint(10, 13)
         ctx.hist("shelves-piled-up:%s" % ("100+" if fill_to >= 100 else "10+"))
     shelves.traffic(rng, rng.choice([0, 0, 1, 2, 3]), fill_to=fill_to)
+
+    if rng.random() < 0.3:
+        fault_round(ctx, rng, p, pre)
 
     rounds = []
     nrounds = 2 if rng.random() < 0.25 else 1
